@@ -240,8 +240,8 @@ def boolean_paths_agree(s: str) -> bool:
         b = ev(T['ctor_bool'], s=s)
     except ElementPathError:
         b = None
-    want = s.strip(' \\t\\n\\r') in ('true', 'false', '1', '0')
-    return castable == want and (b is not None) == want and (b is None or b == [s.strip(' \\t\\n\\r') in ('true', '1')])
+    want = s.strip(' ' + chr(9) + chr(10) + chr(13)) in ('true', 'false', '1', '0')
+    return castable == want and (b is not None) == want and (b is None or b == [s.strip(' ' + chr(9) + chr(10) + chr(13)) in ('true', '1')])
 
 
 @ob(budget=60, tbudget=300, kind='hunt', bound='n integer in [-10^6, 10^6]: integer -> string -> decimal -> integer preserves the value',
